@@ -820,7 +820,11 @@ fn check_history(prog: &Program, all: &[Rec], viol: &mut Vec<Violation>) {
     {
         let total_w: u64 = inserts.iter().map(|i| if let TOp::Ins(_, w) = i.op { prog.cfg.pw(crate::sut::weight_of(w)) as u64 } else { 0 }).sum();
         let no_pressure = prog.cfg.cap.map(|c| total_w <= c).unwrap_or(true);
-        if no_pressure && !prog.cfg.has_expiry() {
+        // with ttl / tti: only while the insert cannot have expired yet (its earliest
+        // possible reading + the shorter of the two durations is later than the latest
+        // reading of the lookup; accesses only ever extend the idle deadline)
+        let shortest: Option<i64> = [prog.cfg.ttl_ms(), prog.cfg.tti_ms()].iter().flatten().cloned().min();
+        if no_pressure {
             for r in all {
                 let k = match (&r.op, &r.obs) {
                     (TOp::Get(k), Obs::Val(None)) => *k,
@@ -829,6 +833,7 @@ fn check_history(prog: &Program, all: &[Rec], viol: &mut Vec<Violation>) {
                 };
                 let settled = inserts.iter().any(|i| {
                     matches!(i.op, TOp::Ins(k2, _) if k2 == k)
+                        && shortest.map(|d| r.completed && r.t1 < i.t0 + d).unwrap_or(true)
                         && after(r, i)
                         && all.iter().all(|x| std::ptr::eq(x, *i) || !(x.op.writes_key() == Some(k) || matches!(x.op, TOp::InvAll)) || after(i, x))
                 });
@@ -1004,7 +1009,9 @@ fn postlude(prog: &Program, sut: &mut Sut, all: &[Rec], viol: &mut Vec<Violation
         let total_w: u64 = inserts.iter().map(|i| if let TOp::Ins(_, w) = i.op { cfg.pw(crate::sut::weight_of(w)) as u64 } else { 0 }).sum();
         let no_pressure = cfg.cap.map(|c| total_w <= c).unwrap_or(true);
         let invalls: Vec<&Rec> = all.iter().filter(|r| matches!(r.op, TOp::InvAll)).collect();
-        if no_pressure && !cfg.has_expiry() {
+        let shortest: Option<i64> = [cfg.ttl_ms(), cfg.tti_ms()].iter().flatten().cloned().min();
+        let end_reading = sut.clock().elapsed().as_millis() as i64;
+        if no_pressure {
             for k in 0..cfg.nkeys {
                 let writes: Vec<&Rec> = all.iter().filter(|r| r.op.writes_key() == Some(k)).collect();
                 if writes.is_empty() {
@@ -1014,8 +1021,9 @@ fn postlude(prog: &Program, sut: &mut Sut, all: &[Rec], viol: &mut Vec<Violation
                 let finals: Vec<&&Rec> = writes.iter().filter(|w| !writes.iter().any(|x| after(x, w))).collect();
                 // ... and every invalidate_all had returned before it began ("anything
                 // inserted or updated after the call remains retrievable")
+                // ... and, with ttl / tti, none of them can have expired by now
                 let all_inserts = !finals.is_empty()
-                    && finals.iter().all(|w| matches!(w.op, TOp::Ins(..)) && invalls.iter().all(|ia| after(w, ia)));
+                    && finals.iter().all(|w| matches!(w.op, TOp::Ins(..)) && invalls.iter().all(|ia| after(w, ia)) && shortest.map(|d| end_reading < w.t0 + d).unwrap_or(true));
                 let held = snap.entries.iter().find(|e| e.key as u8 == k).map(|e| e.value);
                 if all_inserts && held.is_none() {
                     viol.push(Violation {
@@ -1315,6 +1323,31 @@ pub fn family(name: &str, tier: &str) -> Vec<Program> {
                 // re-inserts the key (the entry info, hence the timestamps, is shared)
                 out.push(mk(vec![Op::Ins(0, 1), Op::Sync, Op::Adv(1), Op::InvAll], vec![vec![TOp::Get(0)], vec![TOp::Ins(0, 1)]], cap));
                 out.push(mk(vec![Op::Ins(0, 1), Op::Sync, Op::Adv(1), Op::InvAll], vec![vec![TOp::Con(0), TOp::Get(0)], vec![TOp::Ins(0, 1)]], cap));
+            }
+            // an invalidate that has taken the key out of the map but not queued its Remove
+            // op yet, while another thread inserts the key again: the leftover node of the
+            // old entry sits in the queues beside the new entry
+            // (a) ... and a pass has to evict for size (the node is at the LRU front)
+            out.push(mk(vec![Op::Ins(0, 1), Op::Ins(1, 1), Op::Sync], vec![vec![TOp::Inv(0)], vec![TOp::Adv(1), TOp::Ins(0, 1), TOp::Ins(1, 2), TOp::Sync]], Some(3)));
+            out.push(mk(vec![Op::Ins(0, 1), Op::Ins(1, 1), Op::Sync], vec![vec![TOp::Inv(0)], vec![TOp::Ins(0, 1), TOp::Ins(1, 2), TOp::Sync]], Some(3)));
+            // (b) ... and the old entry's ttl deadline passes while the new one is alive
+            {
+                let mut c = base(None, None);
+                c.ttl = Some(2);
+                out.push(Program { cfg: c.clone(), prefix: vec![Op::Ins(0, 1), Op::Sync], threads: vec![vec![TOp::Inv(0)], vec![TOp::Adv(1), TOp::Ins(0, 1), TOp::Adv(1), TOp::Sync, TOp::Get(0)]] });
+                let mut c2 = c.clone();
+                c2.tti = Some(2);
+                c2.ttl = None;
+                out.push(Program { cfg: c2, prefix: vec![Op::Ins(0, 1), Op::Sync], threads: vec![vec![TOp::Inv(0)], vec![TOp::Adv(1), TOp::Ins(0, 1), TOp::Adv(1), TOp::Sync, TOp::Get(0)]] });
+            }
+            // (c) a purge that has found the front entry expired, against a writer that
+            // refreshes exactly that entry before the purge removes it
+            for (ttl, tti) in [(Some(2u32), None), (None, Some(2u32)), (Some(2), Some(3))] {
+                let mut c = base(None, None);
+                c.ttl = ttl;
+                c.tti = tti;
+                out.push(Program { cfg: c.clone(), prefix: vec![Op::Ins(0, 1), Op::Sync, Op::Adv(2)], threads: vec![vec![TOp::Sync], vec![TOp::Ins(0, 1), TOp::Get(0)]] });
+                out.push(Program { cfg: c.clone(), prefix: vec![Op::Ins(0, 1), Op::Ins(1, 1), Op::Sync, Op::Adv(2)], threads: vec![vec![TOp::Sync, TOp::Get(1)], vec![TOp::Ins(1, 1)]] });
             }
         }
         // ... and with time-to-idle and a moving clock
